@@ -67,6 +67,12 @@ func (vm *Type) Run(retResult bool) (value.Type, error) {
 	for ip < len(*cs) {
 		instr := (*cs)[ip]
 
+		if verifOn {
+			if herr := verifStep(vm, ctxp, ip, instr, m); herr != nil {
+				return vm.dumpStack(ctxp, ip, herr)
+			}
+		}
+
 		// TODO allow tracing flag
 		// fmt.Printf("%8d | %8p | %v\n", ip, ctxp, instr)
 
